@@ -278,6 +278,15 @@ def instances(tier, seed):
                 cfg = dict(sum_op=sum_op, prod_op=prod_op, carrier=car, duration=T, pairs=pairs, batch={}, axes=axes)
                 for v in ["sequential", "naive", "markov_eager", "markov_lazy"] + ["mixed%d" % k for k in range(1, T + 1)]:
                     out.append(("markov", cfg, v))
+    # NO state pairs (the empty set of previous-to-current pairs): the Markov product of a time-dependent transition is
+    # the plain product of its per-step factors (round-6 seeded change; fixed programs, after the seeded ones)
+    for sum_op, prod_op, car in SEMIRINGS:
+        for T in (1, 2, 3):
+            for batch in ({}, {"b0": 2}):
+                axes = [("batch", b) for b in batch] + [("time", "time")]
+                cfg = dict(sum_op=sum_op, prod_op=prod_op, carrier=car, duration=T, pairs=[], batch=batch, axes=axes)
+                for v in ("markov_eager", "markov_lazy"):
+                    out.append(("markov", cfg, v))
     # the time variable is a binder: renaming a free batch input onto its name must not be captured
     for sr in SEMIRINGS[:2]:
         for T in ((2,) if tier == "quick" else (2, 3, 4)):
@@ -305,7 +314,7 @@ def main():
     chk = Check("C10", "model_checking")
     insts = instances(chk.tier, chk.seed)
     chk.map("checks.c10", "worker", insts, chunksize=4)
-    chk.bounds = dict(durations="1..8 | 1..12", state_pairs="1-2 | 1-3 (names chosen so that prev and curr names sort differently)", state_sizes="1-3", batch_inputs="0-1 | 0-2",
+    chk.bounds = dict(durations="1..8 | 1..12", state_pairs="0 (MarkovProduct only, time-dependent transition), 1-2 | 1-3 (names chosen so that prev and curr names sort differently)", state_sizes="1-3", batch_inputs="0-1 | 0-2",
                       num_segments="1..duration (seeded subset in quick)", lag_sets="subsets of {1,2,3}", semirings=[s[:2] for s in SEMIRINGS])
     chk.assumptions = ["assume-guarantee cut: funsor.ops.logsumexp on symbolic arrays is replaced by its specification (decided on its own under C01/C15); maxima of ops.detach()ed log-space arrays are abstracted to arbitrary positive shifts", "sarkka_bilmes_product is compared relationally with naive_sarkka_bilmes_product (both real code over the same symbols)",
                        "the unbounded-duration index lemmas are the Slice/Cat lemmas decided under C04"]
